@@ -729,6 +729,227 @@ theorem C12_completes_partial (sha1 : Bytes → Bytes) (mc : Bytes → McRes) (t
   · unfold nChunks chunk; omega
   · rw [hempty]; simp
 
+/-! ### the exact conditions of completion (the two recorded findings are the complement) -/
+
+/-- a forged byte survives in the buffer: some held block differs from the authentic one -/
+def Poisoned (ti info : Bytes) (bm : List Nat) : Prop :=
+  ∃ j, j < ti.length ∧ (j / 16384) ∈ bm ∧ info[j]? ≠ ti[j]?
+
+/-- an honest round over a poisoned buffer of the right size -/
+def PRound (sha1 : Bytes → Bytes) (ti : Bytes) (s : MState) : Prop :=
+  s.complete = false ∧ s.hash = sha1 ti ∧ s.info.length = ti.length ∧
+  s.requested.length = nChunks ti.length ∧ Poisoned ti s.info s.bitmap ∧
+  ∃ i, i < nChunks ti.length ∧ i ∉ s.bitmap
+
+/-- what a failed round leaves: everything reset, not complete -/
+def Dead (sha1 : Bytes → Bytes) (ti : Bytes) (s : MState) : Prop :=
+  s.complete = false ∧ s.hash = sha1 ti ∧ s.info = [] ∧ s.bitmap = [] ∧ s.requested = []
+
+theorem dead_step (sha1 : Bytes → Bytes) (mc : Bytes → McRes) (ti : Bytes)
+    (hpos : 0 < ti.length) (hmax : ti.length ≤ maxSize) (s : MState) (hd : Dead sha1 ti s) (i : Nat) :
+    (step sha1 mc s (honest ti i)).1 = s := by
+  obtain ⟨hc, -, hi, -, -⟩ := hd
+  simp only [step, honest, gotMetadata, gotMetadataG, hc, hi, ofNat_toNat hmax]
+  have : ¬ ti.length = 0 := by omega
+  simp [this]
+
+theorem poisoned_step (sha1 : Bytes → Bytes) (mc : Bytes → McRes) (ti : Bytes)
+    (hsha : ∀ x, (sha1 x).length = 20) (hinj : ∀ x, sha1 x = sha1 ti → x = ti)
+    (hmax : ti.length ≤ maxSize) (s : MState) (hr : PRound sha1 ti s) (i : Nat)
+    (hi : i < nChunks ti.length) :
+    Dead sha1 ti (step sha1 mc s (honest ti i)).1 ∨
+    (PRound sha1 ti (step sha1 mc s (honest ti i)).1 ∧
+      ∀ k, k ∉ (step sha1 mc s (honest ti i)).1.bitmap → k ∉ s.bitmap ∧ k ≠ i) := by
+  obtain ⟨hc, hh, hl, hq, hp, hmiss⟩ := hr
+  have hw : WF s := ⟨by rw [hh]; exact hsha ti, fun _ => ⟨by omega, by rw [hq, hl]⟩⟩
+  have hi8 : i ≤ maxSize := by have := nChunks_le hmax; unfold maxSize; omega
+  have hile : i * 16384 ≤ ti.length := by unfold nChunks chunk at hi; omega
+  simp only [step, honest]
+  have hcases := got_cases sha1 mc s hw hsha (UInt32.ofNat i) (UInt32.ofNat ti.length)
+    ((ti.drop (i * chunk)).take chunk)
+  simp only [ofNat_toNat hi8, ofNat_toNat hmax, chunk] at hcases
+  simp only [chunk]
+  -- a surviving forged byte is untouched by a block stored elsewhere
+  have hkeep : i ∉ s.bitmap →
+      Poisoned ti (copyAt s.info (i * 16384) ((ti.drop (i * 16384)).take 16384)) (i :: s.bitmap) := by
+    intro hni
+    obtain ⟨j, hj, hjm, hjne⟩ := hp
+    refine ⟨j, hj, by simp [hjm], ?_⟩
+    rw [copyAt_get _ _ _ (by omega)]
+    have hji : j / 16384 ≠ i := fun h => hni (h ▸ hjm)
+    have : ¬ (i * 16384 ≤ j ∧ j < i * 16384 +
+        min ((ti.drop (i * 16384)).take 16384).length (s.info.length - i * 16384)) := by
+      simp only [List.length_take, List.length_drop]; omega
+    simp only [this, if_false]
+    exact hjne
+  have hstill : PRound sha1 ti s := ⟨hc, hh, hl, hq, hp, hmiss⟩
+  have hsame : ∀ k, k ∉ s.bitmap → i ∈ s.bitmap → k ∉ s.bitmap ∧ k ≠ i :=
+    fun k hk hin => ⟨hk, fun h => hk (h ▸ hin)⟩
+  have hnew : ∀ (hni : i ∉ s.bitmap)
+      (hns : allSet (i :: s.bitmap) s.requested.length = false),
+      PRound sha1 ti { s with info := copyAt s.info (i * 16384) ((ti.drop (i * 16384)).take 16384),
+                              bitmap := i :: s.bitmap } := by
+    intro hni hns
+    refine ⟨hc, hh, ?_, hq, hkeep hni, ?_⟩
+    · simp only [copyAt_length _ _ _ (show i * 16384 ≤ s.info.length by omega)]; exact hl
+    · rw [hq] at hns
+      apply Classical.byContradiction
+      intro hne
+      have : allSet (i :: s.bitmap) (nChunks ti.length) = true := by
+        rw [allSet_iff]
+        intro k hk
+        apply Classical.byContradiction
+        intro hk'
+        exact hne ⟨k, hk, hk'⟩
+      rw [this] at hns; simp at hns
+  have hdead : Dead sha1 ti (reset { s with info := copyAt s.info (i * 16384) ((ti.drop (i * 16384)).take 16384),
+                                            bitmap := i :: s.bitmap }) :=
+    ⟨hc, hh, rfl, rfl, rfl⟩
+  rcases hcases with c | c | c | c | c | c | c | c | c | c
+  · rw [c.2.2] at hc; simp at hc
+  · exact absurd hl.symm c.2.2.2
+  · have := c.2.2.2; omega
+  · have := c.2.2.2
+    have hdl : ((ti.drop (i * 16384)).take 16384).length = min 16384 (ti.length - i * 16384) := by
+      simp [List.length_take, List.length_drop]
+    rw [hdl] at this; omega
+  · right; rw [c.2.1]; exact ⟨hstill, fun k hk => hsame k hk c.2.2.2⟩
+  · right; rw [c.2.2.1]
+    refine ⟨hnew c.2.1.2.2.2.2.1 c.2.2.2, fun k hk => ?_⟩
+    simp only [List.mem_cons, not_or] at hk
+    exact ⟨hk.2, hk.1⟩
+  · left; rw [c.2.2.1]; exact hdead
+  · left; rw [c.2.2.1]; exact hdead
+  · -- MetadataComplete panicked: the poisoned buffer is still there (the hash matched: impossible)
+    exfalso
+    have h6 := c.2.2.2.2.1
+    rw [hh] at h6
+    have heq := hinj _ h6
+    obtain ⟨j, hj, hjm, hjne⟩ := hkeep c.2.1.2.2.2.2.1
+    exact hjne (by rw [heq])
+  · exfalso
+    have h6 := c.2.2.2.2.1
+    rw [hh] at h6
+    have heq := hinj _ h6
+    obtain ⟨j, hj, hjm, hjne⟩ := hkeep c.2.1.2.2.2.2.1
+    exact hjne (by rw [heq])
+
+theorem poisoned_run (sha1 : Bytes → Bytes) (mc : Bytes → McRes) (ti : Bytes)
+    (hsha : ∀ x, (sha1 x).length = 20) (hinj : ∀ x, sha1 x = sha1 ti → x = ti)
+    (hpos : 0 < ti.length) (hmax : ti.length ≤ maxSize) :
+    ∀ (idxs : List Nat) (s : MState), (∀ i ∈ idxs, i < nChunks ti.length) →
+      (Dead sha1 ti s ∨ (PRound sha1 ti s ∧ ∀ k, k < nChunks ti.length → k ∉ s.bitmap → k ∈ idxs)) →
+      Dead sha1 ti (run sha1 mc s (idxs.map (honest ti)))
+  | [], s, _, hp => by
+    rcases hp with hd | ⟨hr, hcov⟩
+    · exact hd
+    · obtain ⟨k, hk, hk'⟩ := hr.2.2.2.2.2
+      exact absurd (hcov k hk hk') (by simp)
+  | i :: rest, s, hrange, hp => by
+    simp only [List.map, run, List.foldl]
+    apply poisoned_run sha1 mc ti hsha hinj hpos hmax rest _ (fun j hj => hrange j (by simp [hj]))
+    rcases hp with hd | ⟨hr, hcov⟩
+    · left; rw [dead_step sha1 mc ti hpos hmax s hd i]; exact hd
+    · rcases poisoned_step sha1 mc ti hsha hinj hmax s hr i (hrange i (by simp)) with hd | ⟨hr', hsub⟩
+      · exact Or.inl hd
+      · right
+        refine ⟨hr', fun k hk hk' => ?_⟩
+        obtain ⟨h1, h2⟩ := hsub k hk'
+        have := hcov k hk h1
+        simp only [List.mem_cons] at this
+        rcases this with h | h
+        · exact absurd h h2
+        · exact h
+
+/-- COMPLETION, EXACTLY.  In a state whose buffer has the honest size (the honest size is the
+    guess and the buffer was allocated), one honest round — an honest block for every index,
+    any order, any duplicates — completes the download IF AND ONLY IF no forged block
+    survives in the buffer at the start of the round (every held block is authentic).
+    Hypothesis on the hash: nothing but the authentic dictionary hashes to the info-hash. -/
+theorem C12_completes_iff (sha1 : Bytes → Bytes) (mc : Bytes → McRes) (ti : Bytes)
+    (hsha : ∀ x, (sha1 x).length = 20) (hinj : ∀ x, sha1 x = sha1 ti → x = ti) (hmc : mc ti = .ok)
+    (hpos : 0 < ti.length) (hmax : ti.length ≤ maxSize) (s : MState)
+    (hc : s.complete = false) (hh : s.hash = sha1 ti) (hl : s.info.length = ti.length)
+    (hq : s.requested.length = nChunks ti.length)
+    (hmiss : ∃ i, i < nChunks ti.length ∧ i ∉ s.bitmap)
+    (idxs : List Nat) (hrange : ∀ i ∈ idxs, i < nChunks ti.length)
+    (hcov : ∀ k, k < nChunks ti.length → k ∈ idxs) :
+    Finished ti (run sha1 mc s (idxs.map (honest ti))) ↔ Agree ti s.info s.bitmap := by
+  constructor
+  · intro hf
+    apply Classical.byContradiction
+    intro hna
+    have hp : Poisoned ti s.info s.bitmap := by
+      apply Classical.byContradiction
+      intro hnp
+      apply hna
+      intro j hj hm
+      apply Classical.byContradiction
+      intro hne
+      exact hnp ⟨j, hj, hm, hne⟩
+    have hd := poisoned_run sha1 mc ti hsha hinj hpos hmax idxs s hrange
+      (Or.inr ⟨⟨hc, hh, hl, hq, hp, hmiss⟩, fun k hk _ => hcov k hk⟩)
+    have hfc := hf.1
+    rw [hd.1] at hfc
+    simp at hfc
+  · intro ha
+    exact C12_completes_honest_buffer sha1 mc ti hsha hmc hmax s ⟨hc, hh, hl, hq, ha, hmiss⟩ idxs
+      hrange (fun k hk _ => hcov k hk)
+
+/-- … and when a forged block did survive, the round ends in a reset, and a SECOND honest
+    round after the next requestMetadata (honest size = guess) completes -/
+theorem C12_second_round_completes (sha1 : Bytes → Bytes) (mc : Bytes → McRes) (ti : Bytes)
+    (hsha : ∀ x, (sha1 x).length = 20) (hinj : ∀ x, sha1 x = sha1 ti → x = ti) (hmc : mc ti = .ok)
+    (hpos : 0 < ti.length) (hmax : ti.length ≤ maxSize) (s : MState)
+    (hr : PRound sha1 ti s)
+    (idxs : List Nat) (hrange : ∀ i ∈ idxs, i < nChunks ti.length)
+    (hcov : ∀ k, k < nChunks ti.length → k ∈ idxs)
+    (picks : List Nat) (idxs2 : List Nat) (hrange2 : ∀ i ∈ idxs2, i < nChunks ti.length)
+    (hcov2 : ∀ k, k < nChunks ti.length → k ∈ idxs2) :
+    let s1 := run sha1 mc s (idxs.map (honest ti))
+    Dead sha1 ti s1 ∧
+    Finished ti (run sha1 mc (requestMetadata s1 ti.length picks).1 (idxs2.map (honest ti))) := by
+  intro s1
+  have hd : Dead sha1 ti s1 := poisoned_run sha1 mc ti hsha hinj hpos hmax idxs s hrange
+    (Or.inr ⟨hr, fun k hk _ => hcov k hk⟩)
+  refine ⟨hd, ?_⟩
+  obtain ⟨dc, dh, di, db, dq⟩ := hd
+  have hn0 : ¬ ti.length = 0 := by omega
+  have hsz : (UInt32.ofNat ti.length).toNat = ti.length := ofNat_toNat hmax
+  have hres : resizeMetadata s1 (UInt32.ofNat ti.length) =
+      ({ s1 with info := List.replicate ti.length 0, bitmap := [],
+                 requested := List.replicate (nChunks ti.length) 0 }, .ok) := by
+    unfold resizeMetadata
+    rw [if_neg (by rw [dc]; simp), if_neg (by rw [hsz]; omega), if_pos (by rw [di, hsz]; simpa using Ne.symm hn0),
+        resize_requested (UInt32.ofNat ti.length) (by rw [hsz]; exact hmax), hsz]
+  have hreq : requestMetadata s1 ti.length picks =
+      ({ s1 with info := List.replicate ti.length 0, bitmap := [],
+                 requested := picks.foldl bumpReq (List.replicate (nChunks ti.length) 0) }, .ok) := by
+    unfold requestMetadata
+    rw [if_neg (by rw [dc]; simp), if_neg hn0, if_pos (by rw [di]; simpa using Ne.symm hn0), hres]
+    simp
+  rw [hreq]
+  exact C12_completes_partial sha1 mc ti hsha hmc hpos hmax
+    { s1 with info := List.replicate ti.length 0, bitmap := [],
+              requested := picks.foldl bumpReq (List.replicate (nChunks ti.length) 0) }
+    dc dh (by simp) (by simp [foldl_bumpReq_length]) rfl idxs2 hrange2 hcov2
+
+/-- … and when the buffer does NOT have the honest size (a hostile size is the guess, or
+    nothing was requested since a reset), every honest block is refused and nothing changes -/
+theorem C12_wrong_size_refuses (sha1 : Bytes → Bytes) (mc : Bytes → McRes) (ti : Bytes)
+    (hmax : ti.length ≤ maxSize) (s : MState) (hc : s.complete = false)
+    (hsmax : s.info.length ≤ maxSize) (hne : s.info.length ≠ ti.length) :
+    ∀ (idxs : List Nat), run sha1 mc s (idxs.map (honest ti)) = s
+  | [] => rfl
+  | i :: rest => by
+    simp only [List.map, run, List.foldl]
+    have h1 : (step sha1 mc s (honest ti i)).1 = s := by
+      simp only [step, honest, gotMetadata, gotMetadataG, hc, ofNat_toNat hmax]
+      have : s.info.length % 4294967296 = s.info.length := by unfold maxSize at hsmax; omega
+      simp [this, Ne.symm hne]
+    rw [h1]
+    exact C12_wrong_size_refuses sha1 mc ti hmax s hc hsmax hne rest
+
 /-- the full statement of the property's last clause: one honest delivery per index after
     the last corruption, WHATEVER the buffer holds when the honest blocks start -/
 def C12_completes_full : Prop :=
@@ -777,5 +998,59 @@ example : (run wSha (fun _ => .ok)
     { wS with info := List.replicate 16385 0, bitmap := [] } ([1, 0, 1].map (honest wTi))).complete
       = true := by
   decide +kernel
+
+/-! ### byte level: the completed buffer is what ReadTorrent's info decoder consumes -/
+
+/-- Torrent.MetadataComplete over the assembled BYTES: `Meta.decodeBInfo` (the decoder
+    `Meta.readTorrentBytes` applies to a file's raw info value) then `Meta.metadataComplete` -/
+def mcBytes (info : Bytes) : McRes :=
+  match Meta.metadataCompleteBytes info with
+  | .ok _ => .ok
+  | .err _ => .err
+  | .panic _ => .panic
+
+theorem mcBytes_no_panic (info : Bytes) : mcBytes info ≠ .panic := by
+  unfold mcBytes
+  split
+  · simp
+  · simp
+  · rename_i w h; exact absurd h (Meta.C13_metadataCompleteBytes_total info w)
+
+theorem mcBytes_ok {x : Bytes} (h : mcBytes x = .ok) :
+    ∃ bi g, Meta.decodeBInfo x = some bi ∧ Meta.metadataComplete 0 bi = .ok g := by
+  unfold mcBytes Meta.metadataCompleteBytes at h
+  cases hd : Meta.decodeBInfo x with
+  | none => rw [hd] at h; simp at h
+  | some bi =>
+    rw [hd] at h
+    simp only at h
+    cases hm : Meta.metadataComplete 0 bi with
+    | ok g => exact ⟨bi, g, rfl, hm⟩
+    | err e => rw [hm] at h; simp at h
+    | panic w => rw [hm] at h; simp at h
+
+/-- no message sequence makes the exchange fault, MetadataComplete over bytes included -/
+theorem C12_no_panic_bytes (sha1 : Bytes → Bytes) (hsha : ∀ x, (sha1 x).length = 20)
+    (h : Bytes) (hh : h.length = 20) (ops : List Op) (op : Op) :
+    (step sha1 mcBytes (run sha1 mcBytes (init h) ops) op).2 ≠ .panic :=
+  C12_no_panic_run sha1 mcBytes hsha mcBytes_no_panic h hh ops op
+
+/-- AUTHENTICITY AT BYTE LEVEL.  After ANY sequence of votes, requests and blocks, a torrent
+    added by info-hash `h` that is complete holds a buffer whose SHA-1 is `h` — the identity
+    of the resulting torrent is the magnet's hash — and that very byte string decodes
+    (`decodeBInfo`, the decoder ReadTorrent-over-bytes applies to a file's info value) to a
+    dictionary MetadataComplete accepts, with a self-consistent geometry and usable
+    file names -/
+theorem C12_authentic_bytes (sha1 : Bytes → Bytes) (hsha : ∀ x, (sha1 x).length = 20)
+    (h : Bytes) (hh : h.length = 20) (ops : List Op)
+    (hc : (run sha1 mcBytes (init h) ops).complete = true) :
+    sha1 (run sha1 mcBytes (init h) ops).info = h ∧
+    ∃ bi g, Meta.decodeBInfo (run sha1 mcBytes (init h) ops).info = some bi ∧
+      Meta.metadataComplete 0 bi = .ok g ∧ g.Valid ∧ g.PathsNonEmpty ∧
+      Meta.validComponent g.name = true := by
+  obtain ⟨h1, h2⟩ := C12_authentic_run sha1 mcBytes hsha h hh ops hc
+  obtain ⟨bi, g, hd, hm⟩ := mcBytes_ok h2
+  exact ⟨h1, bi, g, hd, hm, Meta.C13_geometry hm, Meta.C13_paths_nonempty hm,
+    (Meta.C13_paths_wellformed hm).1⟩
 
 end Storrent.Metadata
